@@ -14,7 +14,7 @@
  *                                          a requests before setup_*, b between setup_* and setup_init, c after setup_init;
  *                                          the first nfix requests (indices into OPS) are given, all completions to length a+b+c
  *                                          are enumerated in lexicographic order.  enc=1: after the history run pipeline 2 with
- *                                          1100 samples when setup_init succeeded (used with nfix == a+b+c).
+ *                                          1100 samples (0.75 s of audio for managed set-ups) when setup_init succeeded (used with nfix == a+b+c).
  *   T                                      print the tables (rates, qualities, ops, bases) as one line of JSON-ish text
  * output: <idx> ok n=<set-ups> cls=<class>*<count>,...  succ=<ch>/<template>*<count>,.. st=<hash>:<ops>,.. leak=<desc>*<bytes>,.. bad=<kind>@<desc>;..
  * A non-empty bad= is a property violation on that tuple.  */
@@ -44,7 +44,7 @@ static const long MRATES[8]={-1,1,8000,16000,32000,44100,96000,2147483647L};
 enum { AK_RM=1, AK_RM2, AK_DBL, AK_INT, AK_NULL, AK_BLOB, AK_VINULL };
 typedef struct { int number; int ak; int ai; const char *name; } ctlop;
 static struct ovectl_ratemanage_arg RMV[8]; static int nrm;
-static struct ovectl_ratemanage2_arg RM2V[24]; static int nrm2;
+static struct ovectl_ratemanage2_arg RM2V[40]; static int nrm2;
 static double DBLV[16]; static int ndbl;
 static int INTV[4]={0,1,INT_MIN,0};
 static ctlop OPS[80]; static int NOPS;
@@ -88,6 +88,17 @@ static void init_ops(void){
   addop(OV_ECTL_RATEMANAGE2_SET,AK_RM2,rm2(1,64,256,256000,1.,128,1.5),"RM2_SET(bias=1)");
   addop(OV_ECTL_RATEMANAGE2_SET,AK_RM2,rm2(1,64,256,256000,1.000001,128,1.5),"RM2_SET(bias>1)");
   addop(OV_ECTL_RATEMANAGE2_SET,AK_RM2,rm2(1,64,256,256000,NAN,128,1.5),"RM2_SET(bias=NaN)");
+  /* management_active==0 combined with each field the active form refuses (the header does not say whether an inactive request is
+     validated, so its return code is not judged; what a later request that re-enables management does with the stored values is) */
+  addop(OV_ECTL_RATEMANAGE2_SET,AK_RM2,rm2(0,0,0,0,0.,0,0.),"RM2_SET(inactive_zeroed_struct)");
+  addop(OV_ECTL_RATEMANAGE2_SET,AK_RM2,rm2(0,129,256,256000,.1,128,1.5),"RM2_SET(inactive_min>avg)");
+  addop(OV_ECTL_RATEMANAGE2_SET,AK_RM2,rm2(0,64,127,256000,.1,128,1.5),"RM2_SET(inactive_max<avg)");
+  addop(OV_ECTL_RATEMANAGE2_SET,AK_RM2,rm2(0,200,100,256000,.1,0,1.5),"RM2_SET(inactive_min>max)");
+  addop(OV_ECTL_RATEMANAGE2_SET,AK_RM2,rm2(0,64,256,256000,.1,128,-1.),"RM2_SET(inactive_damp=-1)");
+  addop(OV_ECTL_RATEMANAGE2_SET,AK_RM2,rm2(0,64,256,256000,.1,128,-1e-9),"RM2_SET(inactive_damp=-1e-9)");
+  addop(OV_ECTL_RATEMANAGE2_SET,AK_RM2,rm2(0,64,256,-1,.1,128,1.5),"RM2_SET(inactive_res=-1)");
+  addop(OV_ECTL_RATEMANAGE2_SET,AK_RM2,rm2(0,64,256,256000,-1e-9,128,1.5),"RM2_SET(inactive_bias<0)");
+  addop(OV_ECTL_RATEMANAGE2_SET,AK_RM2,rm2(0,64,256,256000,1.000001,128,1.5),"RM2_SET(inactive_bias>1)");
   addop(OV_ECTL_RATEMANAGE2_SET,AK_RM2,rm2(7,-5,-5,1,.5,-5,1.5),"RM2_SET(negative_kbps)");
   addop(OV_ECTL_RATEMANAGE2_SET,AK_RM2,rm2(1,0,2147483,4000000000L,.5,2147483,1.5),"RM2_SET(2^31_bps)");
   /* lowpass: documented valid range 2..99 */
@@ -415,10 +426,13 @@ static void one_history(acc *A,int base,int a,int b,int c,const int *ops,int enc
     if(!found){ char sk[120]; int k=snprintf(sk,sizeof(sk),"%s:%d:",hex,r2); for(i=0;i<L;i++)k+=snprintf(sk+k,sizeof(sk)-k,"%s%d",i?".":"",ops[i]); cs_add(states,sk,1); }
   }
   if(enc&&r2==0){
-    encstat es={0,0,0,0}; char sk[64];
-    pipeline(&vi,vi.channels,vi.rate,2,1100,pb,sizeof(pb),&es);
+    encstat es={0,0,0,0}; char sk[64]; long ns=1100; codec_setup_info *ci=(codec_setup_info*)vi.codec_setup;
+    /* the average-bitrate floater moves at most 15/damping steps per second of audio: give a managed set-up 0.75 s (<= 40000 samples,
+       <= 6 channels) so that a floater that drifts has the time to leave its range */
+    if(ci->bi.reservoir_bits>0&&ci->bi.avg_rate>0&&vi.channels<=6){ ns=vi.rate*3/4; if(ns<1100)ns=1100; if(ns>40000)ns=40000; }
+    pipeline(&vi,vi.channels,vi.rate,2,ns,pb,sizeof(pb),&es);
     if(pb[0]){ snprintf(kind,sizeof(kind),"after_success:%s",pb); acc_bad(A,kind,desc); }
-    snprintf(sk,sizeof(sk),"ctl/ns1100/%s",es.bigpad?"bigpad_not_encoded":(es.packets?"packets":"nopackets")); cs_add(&A->enc,sk,1);
+    snprintf(sk,sizeof(sk),"ctl/ns%ld/%s",ns,es.bigpad?"bigpad_not_encoded":(es.packets?"packets":"nopackets")); cs_add(&A->enc,sk,1);
   }
   vorbis_info_clear(&vi);
   if(!info_is_zero(&vi))acc_bad(A,"info_not_zero_after_clear",desc);
